@@ -101,7 +101,15 @@ impl Ctx {
         if self.crashed {
             return false;
         }
-        let alive = self.client.as_mut().map_or(false, |c| c.alive());
+        let mut alive = self.client.as_mut().map_or(false, |c| c.alive());
+        if alive && self.armed && self.client.as_ref().map_or(false, |c| c.stderr.lock().unwrap().contains("VERIF_CRASH_AT reached")) {
+            // on its way down (see above)
+            let t0 = Instant::now();
+            while self.client.as_mut().map_or(false, |c| c.alive()) && t0.elapsed() < Duration::from_secs(60) {
+                std::thread::sleep(Duration::from_millis(50));
+            }
+            alive = self.client.as_mut().map_or(false, |c| c.alive());
+        }
         if !alive && self.armed {
             // the abort we asked for: a crash point
             self.crashed = true;
@@ -244,6 +252,16 @@ pub fn run_scenario(sc: &Scenario, props: &[&'static str]) -> Trace {
                 // the call is still being handled is a kill before the notification was taken)
                 if answered && !cx.notified.iter().any(|(l, _)| *l == loc) {
                     cx.notified.push((loc, live));
+                }
+                // an armed client announces the abort on stderr ("VERIF_CRASH_AT reached") before it dies; dying can
+                // take a while on a loaded machine (or where core dumps are written): wait for it rather than
+                // mistaking a dying process for a wedged one
+                if !answered && cx.armed {
+                    let announced = cx.client.as_ref().map_or(false, |c| c.stderr.lock().unwrap().contains("VERIF_CRASH_AT reached"));
+                    let t0 = Instant::now();
+                    while cx.client.as_mut().map_or(false, |c| c.alive()) && t0.elapsed() < Duration::from_secs(if announced { 60 } else { 5 }) {
+                        std::thread::sleep(Duration::from_millis(50));
+                    }
                 }
                 let died_as_asked = cx.armed && cx.client.as_mut().map_or(true, |c| !c.alive());
                 if !answered && !cx.crashed && !died_as_asked {
